@@ -59,7 +59,8 @@ def main():
             rc0, _ = sh(demo, env=env, cwd='/var/tmp', timeout=1800)
             rc, out = sh('git -C {} apply {}'.format(wt, os.path.join(d, 'patch.diff')))
             if rc:
-                res['error'] = 'patch does not apply: ' + out[-300:]; results[sid] = res; continue
+                res['error'] = 'patch does not apply: ' + out[-300:]; results[sid] = res
+                print('{:28s} {} ERROR {}'.format(sid, pid, res['error'])); continue
             rc1, _ = sh(demo, env=env, cwd='/var/tmp', timeout=1800)
             res['demo_clean_rc'], res['demo_patched_rc'] = rc0, rc1
             if suite and not in_repo:
